@@ -152,6 +152,8 @@ class GameCoordinator:
         self._agent_rewards = {}
         # trajectories per agent_addr
         self._agent_trajectories = {}
+        # agents which already received the end-of-episode reward in the current episode
+        self._agents_rewarded = set()
     
     def _spawn_task(self, coroutine, *args, **kwargs)->asyncio.Task:
         "Helper function to make sure all tasks are registered for proper termination"
@@ -674,14 +676,22 @@ class GameCoordinator:
                 for agent in attackers:
                     self.logger.debug(f"Processing reward for agent {agent}")
                     if self._agent_status[agent] is AgentStatus.Success:
-                        self._agent_rewards[agent] += self._rewards["success"]
                         successful_attack = True
+                    if agent in self._agents_rewarded or not self._episode_ends[agent]:
+                        # the end-of-episode reward is assigned only once per episode, after the agent's episode ended
+                        continue
+                    self._agents_rewarded.add(agent)
+                    if self._agent_status[agent] is AgentStatus.Success:
+                        self._agent_rewards[agent] += self._rewards["success"]
                     else:
                         self._agent_rewards[agent] += self._rewards["fail"]
                 
                 # award defenders
                 for agent in defenders:
                     self.logger.debug(f"Processing reward for agent {agent}")
+                    if agent in self._agents_rewarded or not self._episode_ends[agent]:
+                        continue
+                    self._agents_rewarded.add(agent)
                     if not successful_attack:
                         self._agent_rewards[agent] += self._rewards["success"]
                         self._agent_status[agent] = AgentStatus.Success
@@ -727,6 +737,7 @@ class GameCoordinator:
                     self._reset_requests[agent] = False
                     self._agent_rewards[agent] = 0
                     self._agent_steps[agent] = 0
+                    self._agents_rewarded.discard(agent)
                     if self.agents[agent][1].lower() == "attacker":
                         self._agent_status[agent] = AgentStatus.PlayingWithTimeout
                     else:
@@ -795,6 +806,7 @@ class GameCoordinator:
                         if len(self.agents) > 0:
                             self._episode_end_event.set()
                 agent_info["end_reward"] = self._agent_rewards.pop(agent_addr, None)
+                self._agents_rewarded.discard(agent_addr)
                 agent_info["agent_info"] = self.agents.pop(agent_addr)
                 self.logger.debug(f"\t{agent_info}")
                 # clear the sufficient number of players event
